@@ -15,7 +15,7 @@ TOLERANCES = {"acceptance": "error at rounding level (<=1e-11 relative), or aver
                             "the finest pair >= p0-0.25 (3-D: p0-0.4); otherwise escalate (finer ladder) and decide there",
               "p0": "2 (diffusion, central advection, sources, dt ~ h^2), 1 (upwind)",
               "inconclusive": "an undecided steady case whose discrete problem amplifies errors by >= 30 (max row sum of |M^-1| over the PDE rows on the two "
-                              "coarsest levels) is discarded and counted; 3-D orders still rising by >= 0.2 per doubling are judged with margin 0.5"}
+                              "coarsest levels) is discarded and counted; orders still rising by >= 0.2 per doubling on the finest pair are judged with margin 0.5"}
 RULE = ("Error norm: max norm at cell centres; volume-weighted RMS norm when the axis r = 0 is part of the domain.  Generated: grid class (9) x spacing per axis {uniform, smooth grading x=a+L(s+g s(1-s)), |g|<=0.45} x radial origin {0, offset} x "
         "boundary kind per side {Dirichlet, Neumann, Robin} x term set {diffusion, +central, +upwind, +linear source, +transient (1-D/2-D)} x "
         "a parametric family of smooth solutions phi = c0 + prod_i (1 + a_i sin(w_i xi_i + p_i)) (regular at the axis when r=0 is in the "
@@ -290,8 +290,8 @@ def _decide(errs, p0, scale, nd=1):
     ma, ml = MARGIN[nd]
     if nd == 3 and p0 == 1:
         ml = 0.5      # first-order upwind on the coarse 3-D ladder: the error hump of the coarsest levels is still visible
-    if nd == 3 and len(orders) >= 2 and orders[-1] - orders[-2] >= 0.2:
-        ml = max(ml, 0.5)     # 3-D ladders end at 32 cells per axis: an order still rising by >= 0.2 per doubling is pre-asymptotic
+    if len(orders) >= 2 and orders[-1] - orders[-2] >= 0.2:
+        ml = max(ml, 0.5)     # finite ladders: an order still rising by >= 0.2 per doubling is pre-asymptotic (a defect gives a flat one)
     if avg >= p0 - ma or orders[-1] >= p0 - ml:
         return 'pass', orders
     return 'undecided', orders
